@@ -472,7 +472,7 @@ fn small_job<K: Kmer + Send + Sync + 'static>(name: &'static str, q: u32, t: u32
 #[cfg(not(fuzzing))]
 pub fn jobs(env: &Env) -> Vec<Box<dyn Job>> {
     let mut out: Vec<Box<dyn Job>> = vec![
-        big_job::<T32>("T32", "XL", env.pick(150_000, 600_000)),
+        big_job::<T32>("T32", "XL", env.pick(280_000, 600_000)),
         big_job::<T16>("T16", "L", env.pick(30_000, 100_000)),
         big_job::<T32>("T32", "M", 3_000),
     ];
